@@ -7,7 +7,11 @@ Decided clauses (shared with C12 R12.3):
   R15.1 every path that takes the refusing arm of the capacity test ends in a failing return
         (fails rather than truncates); a successful return with no end-pointer out-parameter holds
         the fact "position == length" (the whole text was consumed).
-NOT decided: the accepted language, round-trip equality, NUL termination and encoded-length formula.
+  R15.2 zero trailing bits: sodium_base642bin can report success only on a path holding both
+        "leftover bit count W <= 4" and "(accumulator & ((1 << W) - 1)) == 0" for the *same* W - all
+        bits left over after the last full byte were compared with zero.
+NOT decided: the rest of the accepted language, round-trip equality, NUL termination and the
+encoded-length formula.
 """
 from .. import terms as T
 from ..build import AnalysisBroken
@@ -93,3 +97,54 @@ def run(ctx, chk):
     chk.not_decided = "accepted language, round-trip, NUL termination and length formulas of the encoders are value-level."
     chk.assumptions.append("loop-carried positions are havocked at loop heads; facts are those re-established in the iteration")
     decoder_rules(prog, chk)
+    trailing_bits_rule(prog, chk)
+
+
+def _strip(t):
+    while t[0] == "cast":
+        t = t[2]
+    return t
+
+
+def _lowmask_width(t):
+    """t == (1 << W) - 1  ->  W (casts stripped), else None"""
+    t = _strip(t)
+    if t[0] != "bin" or t[3][0] != "c":
+        return None
+    minus_one = (t[1] == "sub" and t[3][1] == 1) or (t[1] == "add" and t[3][1] == (1 << t[3][2]) - 1)
+    if minus_one:
+        s = _strip(t[2])
+        if s[0] == "bin" and s[1] == "shl" and s[2][0] == "c" and s[2][1] == 1:
+            return _strip(s[3])
+    return None
+
+
+def trailing_bits_rule(prog, chk):
+    fn = prog.need("sodium_base642bin", rule="R15.2")
+    n = 0
+    for p in cm.paths(prog, fn):
+        if p.kind != "ret" or not p.may_return_zero():
+            continue
+        n += 1
+        bounded = set()     # W with W <= 4
+        zeroed = set()      # W with (acc & ((1 << W) - 1)) == 0
+        for t, v in p.facts.items:
+            if t[0] != "icmp" or not v:
+                continue
+            if t[1] == "ule" and t[3][0] == "c" and t[3][1] <= 4:
+                bounded.add(_strip(t[2]))
+            if t[1] == "ult" and t[3][0] == "c" and t[3][1] <= 5:
+                bounded.add(_strip(t[2]))
+            if t[1] == "eq" and t[3][0] == "c" and t[3][1] == 0:
+                a = _strip(t[2])
+                if a[0] == "bin" and a[1] == "and":
+                    for m_ in (a[2], a[3]):
+                        w = _lowmask_width(m_)
+                        if w is not None:
+                            zeroed.add(w)
+        ok = bool(bounded & zeroed)
+        chk.ob("R15.2", fn, "success => leftover bit count W <= 4 and (acc & ((1 << W) - 1)) == 0 for the same W", ok,
+               loc=fn.loc(p.end_iid), detail="" if ok else "bounded: %s; zero-tested widths: %s" % (
+                   [T.show(x, fn) for x in bounded][:3], [T.show(x, fn) for x in zeroed][:3]),
+               path=None if ok else p, key="R15.2 sodium_base642bin trailing-bits")
+    chk.floor("R15.2", "success exits of sodium_base642bin", n, 4)
